@@ -45,12 +45,13 @@ type rlOp struct {
 }
 
 type rlScript struct {
-	proto  string
-	stream []byte
-	lens   []int
-	dflt   int // listener's default read buffer size; 0 = not configured (network.DefaultReadBufferSize)
-	ops    []rlOp
-	how    string
+	netpoll bool // run in netpoll mode (kind rlnp): epoll event loop + read-timeout timer instead of startReadLoop
+	proto   string
+	stream  []byte
+	lens    []int
+	dflt    int // listener's default read buffer size; 0 = not configured (network.DefaultReadBufferSize)
+	ops     []rlOp
+	how     string
 }
 
 func (s *rlScript) caseLine() string {
@@ -62,7 +63,11 @@ func (s *rlScript) caseLine() string {
 			ops = append(ops, "p"+strconv.Itoa(o.pause))
 		}
 	}
-	return fmt.Sprintf("rl %s %s %s %d %s", s.proto, hx.Hex(s.stream), ints(s.lens), s.dflt, strings.Join(ops, ","))
+	kind := "rl"
+	if s.netpoll {
+		kind = "rlnp"
+	}
+	return fmt.Sprintf("%s %s %s %s %d %s", kind, s.proto, hx.Hex(s.stream), ints(s.lens), s.dflt, strings.Join(ops, ","))
 }
 
 type rlObs struct {
@@ -154,6 +159,14 @@ func rlRun(s *rlScript) rlResult {
 	ctx := variable.NewVariableContext(context.Background())
 	if s.dflt != 0 {
 		_ = variable.Set(ctx, types.VariableConnDefaultReadBufferSize, s.dflt)
+	}
+	if s.netpoll {
+		// as activeListener.OnAccept does in netpoll mode: the connection polls a duplicate of the descriptor
+		f, err := a.c.(*net.TCPConn).File()
+		if err != nil {
+			panic(err)
+		}
+		_ = variable.Set(ctx, types.VariableConnectionFd, f)
 	}
 	obs := &rlObs{done: make(chan struct{})}
 	conn := network.NewServerConnection(ctx, a.c, nil)
@@ -438,10 +451,7 @@ func rlCorpus() []*rlScript {
 	return out
 }
 
-func rlCases(c *hx.Ctx) {
-	scripts := append(rlCorpus(), rlScripts(c, c.N(140, 700))...)
-	saved := types.DefaultConnReadTimeout
-	types.DefaultConnReadTimeout = rlTimeout
+func rlBatch(c *hx.Ctx, scripts []*rlScript, tag string) {
 	results := make([]rlResult, len(scripts))
 	var wg sync.WaitGroup
 	sem := make(chan struct{}, 24)
@@ -455,26 +465,45 @@ func rlCases(c *hx.Ctx) {
 		}(i)
 	}
 	wg.Wait()
-	types.DefaultConnReadTimeout = saved
 	for i, s := range scripts {
 		r := results[i]
 		c.Emit("C07", s.caseLine(), fmt.Sprintf("%s %s %s %s", r.trace, hexList(r.frames), hx.Hex(r.residue), flag(r.failed)))
-		c.Count("rl." + s.how)
-		c.Count(fmt.Sprintf("rl.dflt=%d", s.dflt))
+		c.Count(tag + "." + s.how)
+		c.Count(fmt.Sprintf("%s.dflt=%d", tag, s.dflt))
 		nt := strings.Count(","+r.trace+",", ",t,")
 		switch {
 		case nt == 0:
-			c.Count("rl.timeouts=0")
+			c.Count(tag + ".timeouts=0")
 		case nt < 3:
-			c.Count("rl.timeouts=1-2")
+			c.Count(tag + ".timeouts=1-2")
 		default:
-			c.Count("rl.timeouts=3+")
+			c.Count(tag + ".timeouts=3+")
 		}
 		// a timeout hit while a partial frame was buffered and the buffer had grown: what the shrink condition is about
 		if rlStalledGrown(r.trace, s.dflt) {
-			c.Count("rl.timeout-with-buffered-bytes-after-growth")
+			c.Count(tag + ".timeout-with-buffered-bytes-after-growth")
 		}
 	}
+}
+
+func rlCases(c *hx.Ctx) {
+	scripts := append(rlCorpus(), rlScripts(c, c.N(140, 700))...)
+	np := rlScripts(c, c.N(60, 300))
+	for _, s := range rlCorpus() {
+		cp := *s
+		np = append([]*rlScript{&cp}, np...)
+	}
+	for _, s := range np {
+		s.netpoll = true
+	}
+	saved := types.DefaultConnReadTimeout
+	types.DefaultConnReadTimeout = rlTimeout
+	rlBatch(c, scripts, "rl")
+	// the same in netpoll mode (its own copies of the shrink statement: read-timeout timer, event-loop onRead)
+	network.SetNetpollMode(true)
+	rlBatch(c, np, "rlnp")
+	network.SetNetpollMode(false)
+	types.DefaultConnReadTimeout = saved
 }
 
 // rlStalledGrown: in the observed trace, was there a read timeout while the last hand-off left bytes buffered (the next
